@@ -10,6 +10,8 @@ search (oracle): the theorem statements executed on the real functions; slice id
 """
 from __future__ import annotations
 
+import sys
+
 import itertools
 
 from .. import common
@@ -290,7 +292,7 @@ def _pystr_validation(ctx):
         s = "".join(rng.choice(["a", "\n", "b", "\n", "é"]) for _ in range(n))
         c = rng.choice(["\n", "a", "z"])
         lo, hi = bound(n), bound(n)
-        op = ("find", "rfind", "count", "slice", "item", "len", "startswith", "in")[k % 8]
+        op = ("find", "rfind", "count", "slice", "item", "len", "startswith", "in", "scan", "min")[k % 10]
         if op in ("find", "rfind", "count"):
             lines.append(sx(Sym("pystr"), Sym(op), s, c, b(lo), b(hi)))
             impl.append(sx(getattr(s, op)(c, lo, hi)))
@@ -316,6 +318,28 @@ def _pystr_validation(ctx):
             c = x
             lines.append(sx(Sym("pystr"), Sym(op), x, s))
             impl.append(sx(Sym("T" if x in set(s) else "F")))
+        elif op == "scan":
+            # Py.scanWhile against the Python loop itself (the statement shape py2lean translates), bounds negative /
+            # beyond the end included: `while loc < B and s[loc] (not) in cs: loc += 1`
+            cs = set(rng.choice(["a", "\n", "ab", "a\né", "z", ""]))
+            neg = rng.random() < 0.5
+            loc, B = rng.randint(-n - 2, n + 2), rng.randint(-n - 2, n + 3)
+            c, lo, hi = "".join(sorted(cs)) + ("!" if neg else ""), loc, B
+            lines.append(sx(Sym("pystr"), Sym(op), s, "".join(sorted(cs)), Sym("T" if neg else "F"), loc, B))
+            try:
+                if neg:
+                    while loc < B and s[loc] not in cs:
+                        loc += 1
+                else:
+                    while loc < B and s[loc] in cs:
+                        loc += 1
+                impl.append(sx(loc))
+            except IndexError:
+                impl.append(sx(Sym("IndexError")))
+        elif op == "min":
+            lo, hi = rng.randint(-12, 12), rng.choice([rng.randint(-12, 12), sys.maxsize, sys.maxsize + rng.randint(0, 9)])
+            lines.append(sx(Sym("pystr"), Sym(op), lo, hi))
+            impl.append(sx(min(lo, hi)))
         else:
             lines.append(sx(Sym("pystr"), Sym(op), s))
             impl.append(sx(len(s)))
